@@ -5,6 +5,7 @@ from __future__ import annotations
 import ast
 
 from sa.cfg import CFG
+from sa.util import guarded_by_test
 from sa.cfg import forward
 from sa.report import AnalysisError
 from sa.report import Result
@@ -517,6 +518,99 @@ def run(prog: Program, res: Result) -> None:
 
     progress_rule(prog, res, lexer, lm, state_fns)
 
+    # ---------------------------------------------------------------- R1d: saved start marks are fresh when a token is built from them
+    res.rule("C17.R1d", "a token built with start=self.<mark> (markup_start, line_start: scan positions saved from self.start) is reached only on paths where the mark was saved after the previous token built from it - across state-function hand-overs (interprocedural fixpoint)")
+    marks = sorted({t.attr for f in lexer.methods.values() for a in ast.walk(f.node) if isinstance(a, ast.Assign) and _is_self_attr(a.value, "start") for t in a.targets if isinstance(t, ast.Attribute) and isinstance(t.value, ast.Name) and t.value.id == "self" and t.attr not in ("pos", "start")})
+    res.stats["start_marks"] = marks
+    res.floor("C17.R1d", "saved start marks", len(marks), 2)
+    n_mark_uses = 0
+    for mark in marks:
+        # methods (non state functions) that save the mark: calling them counts as saving
+        savers = {n for n, f in lm.methods.items() if n not in state_fns and any(isinstance(a, ast.Assign) and _is_self_attr(a.value, "start") and any(_is_self_attr(t, mark) for t in a.targets) for a in ast.walk(f.node))}
+
+        def _saves(nd: ast.AST, mark: str = mark, savers: set = savers) -> bool:
+            for x in ast.walk(nd):
+                if isinstance(x, ast.Assign) and any(_is_self_attr(t, mark) for t in x.targets) and _is_self_attr(x.value, "start"):
+                    return True
+                if isinstance(x, ast.Call) and isinstance(x.func, ast.Attribute) and _is_self_attr(x.func, x.func.attr) and x.func.attr in savers:
+                    return True
+            return False
+
+        def _uses(nd: ast.AST, mark: str = mark) -> list[ast.Call]:
+            return [c for c in ast.walk(nd) if isinstance(c, ast.Call) and any(k.arg == "start" and _is_self_attr(k.value, mark) for k in c.keywords)]
+
+        entry: dict[str, frozenset] = {name: frozenset() for name in state_fns}
+        first = "lex_markup" if "lex_markup" in state_fns else sorted(state_fns)[0]
+        entry[first] = frozenset({"stale"})
+        stale_uses: dict[tuple[str, int], ast.Call] = {}
+        for _round in range(12):
+            changed = False
+            for name in sorted(state_fns):
+                if not entry[name]:
+                    continue
+                cfg = lm.cfg(name)
+
+                def tr(n, st, label, name=name):  # noqa: ANN001, ANN202
+                    if n.node is None or n.kind not in ("stmt", "test") or label == "exc":
+                        return st
+                    cur = st
+                    us = _uses(n.node)
+                    if us and "stale" in cur and not _saves(n.node):
+                        for u in us:
+                            stale_uses[(name, u.lineno)] = u
+                    if us:
+                        cur = frozenset({"stale"})
+                    if _saves(n.node):
+                        cur = frozenset({"fresh"})
+                    return cur
+
+                IN = forward(cfg, entry[name], tr, lambda a, b: a | b)
+                for node in cfg.nodes:
+                    if node.kind == "stmt" and isinstance(node.node, ast.Return) and node.id in IN and node.node.value is not None:
+                        out = tr(node, IN[node.id], "next")
+                        for sub in ast.walk(node.node.value):
+                            if isinstance(sub, ast.Attribute) and _is_self_attr(sub, sub.attr) and sub.attr in state_fns:
+                                if not out <= entry[sub.attr]:
+                                    entry[sub.attr] = entry[sub.attr] | out
+                                    changed = True
+            if not changed:
+                break
+        for name in sorted(state_fns):
+            for c in _uses(lexer.methods[name].node):
+                n_mark_uses += 1
+                site = f"{rel}:{c.lineno} Lexer.{name}"
+                what = f"`{norm(c.func)}(start=self.{mark}, …)` built from a mark saved for this token"
+                if (name, c.lineno) in stale_uses:
+                    res.fail("C17.R1d", file=rel, line=c.lineno, qualname=f"Lexer.{name}", construct=f"{norm(c.func)}(start=self.{mark}) with a stale mark", message=f"Lexer.{name} builds {norm(c.func)} with start=self.{mark}, but on some path self.{mark} was not saved since the previous token built from it (or never: it starts at -1): the token starts at an earlier token's offset or outside the source", what=what)
+                else:
+                    res.ok("C17.R1d", site, what, f"self.{mark} = self.start on every path since the last token built from it")
+    res.floor("C17.R1d", "tokens built from a saved mark", n_mark_uses, 6)
+
+    # ---------------------------------------------------------------- R1e / R6: path tokens
+    res.rule("C17.R6", "Lexer.accept_path: a path token's stop is brought up to date after every segment it gains (never left at its placeholder when the function returns), a nested path's stop is taken before its closing bracket is skipped, and every return is guarded by a bracket-balance test against the entry depth")
+    check_path_tokens(prog, res, "C17.R6")
+
+    # ---------------------------------------------------------------- R5: one notion of "line"
+    res.rule("C17.R5", "line/column computations use one notion of line break: a function that splits with str.splitlines() does not also count or search for '\\n' (and vice versa), in liquid2/exceptions.py and liquid2/messages.py")
+    n_line_fns = 0
+    for mrel in ("liquid2/exceptions.py", "liquid2/messages.py"):
+        pm = prog.mod(mrel)
+        for fq, fn_ in pm.functions.items():
+            uses_split = [c for c in ast.walk(fn_.node) if isinstance(c, ast.Call) and isinstance(c.func, ast.Attribute) and c.func.attr == "splitlines"]
+            uses_nl = [c for c in ast.walk(fn_.node) if isinstance(c, ast.Call) and isinstance(c.func, ast.Attribute) and c.func.attr in ("count", "find", "rfind", "index", "rindex", "split", "rsplit", "partition", "rpartition") and c.args and isinstance(c.args[0], ast.Constant) and c.args[0].value in ("\n", "\r\n")]
+            if not uses_split and not uses_nl:
+                continue
+            n_line_fns += 1
+            site = f"{mrel}:{fn_.node.lineno} {fq}"
+            what = f"{fq}: one line-break model"
+            if uses_split and uses_nl:
+                res.fail("C17.R5", file=mrel, line=uses_nl[0].lineno, qualname=fq, construct=f"{fq} mixes splitlines() with `{norm(uses_nl[0], 40)}`", message=f"{fq} finds lines with str.splitlines() (which also breaks at \\r, \\x0b, \\x0c, \\x1c-\\x1e, \\x85, \\u2028, \\u2029) and positions with `{norm(uses_nl[0], 40)}`: for a source containing one of those characters the reported line/column and the displayed line disagree", what=what)
+            elif uses_nl:
+                res.fail("C17.R5", file=mrel, line=uses_nl[0].lineno, qualname=fq, construct=f"{fq} counts '\\n' while its siblings use splitlines()", message=f"{fq} computes positions from '\\n' only, the other position functions use str.splitlines(): line numbers from the two disagree for sources with other line boundaries", what=what)
+            else:
+                res.ok("C17.R5", site, what, "splitlines() only")
+    res.floor("C17.R5", "line/column functions", n_line_fns, 3)
+
     # ---------------------------------------------------------------- R4: who may build tokens
     res.rule("C17.R4", "tokens are built by the lexer only; a token built anywhere else either carries no position (index/start = -1, the shared end-of-input token) or copies .start/.index from an existing token - never a .stop or a computed offset, which can lie one past the last character")
     tok_classes = {c.name for c in prog.subclasses("liquid2.token.TokenT")}
@@ -886,3 +980,85 @@ def progress_rule(prog: Program, res: Result, lexer: ClassInfo, lm: LexerModel, 
                     else:
                         res.fail("C17.R3", file=rel, line=node.line, qualname=f"Lexer.{name}", construct=f"{norm(node.node)} without progress [{st}]", message=f"Lexer.{name} can hand over to the next state without having consumed any input ({st}): two state functions can hand over to each other forever", what=what)
     res.floor("C17.R3", "back edges and hand-overs examined", n_back, 20)
+
+
+def check_path_tokens(prog: Program, res: Result, rule: str) -> None:
+    """Lexer.accept_path keeps every path token's span exact (see C17.R6)."""
+    lexer = prog.cls("liquid2.lexer.Lexer")
+    lm = LexerModel(prog, lexer)
+    rel = lexer.file
+    ap = lexer.methods.get("accept_path")
+    if ap is None:
+        raise AnalysisError("Lexer.accept_path vanished")
+    acfg = lm.cfg("accept_path")
+
+    def _gains(nd: ast.AST) -> bool:
+        for x in ast.walk(nd):
+            if isinstance(x, ast.Call) and isinstance(x.func, ast.Attribute) and x.func.attr == "append":
+                tgt = norm(x.func.value)
+                if tgt == "self.path_stack[-1].path":
+                    return True
+                if tgt == "self.path_stack" and x.args and isinstance(x.args[0], ast.Call):
+                    # pushing a path that already holds its first segment is a gain; the empty root pushed on entry is not
+                    pk = next((k.value for k in x.args[0].keywords if k.arg == "path"), None)
+                    if not (isinstance(pk, ast.List) and not pk.elts):
+                        return True
+        return False
+
+    def _stops(nd: ast.AST) -> bool:
+        return isinstance(nd, ast.Assign) and any(isinstance(t, ast.Attribute) and t.attr == "stop" and norm(t.value) == "self.path_stack[-1]" for t in nd.targets)
+
+    def ptr(n, st, label):  # noqa: ANN001, ANN202
+        if n.node is None or n.kind != "stmt" or label == "exc":
+            return st
+        cur = st
+        if _gains(n.node):
+            cur = "stale"
+        if _stops(n.node):
+            cur = "fresh"
+        return cur
+
+    PIN = forward(acfg, "fresh", ptr, lambda a, b: "stale" if "stale" in (a, b) else "fresh")
+    rets = [n for n in acfg.nodes if n.kind == "stmt" and isinstance(n.node, ast.Return)] + [src for src, _l in acfg.exit.pred if not (src.kind == "stmt" and isinstance(src.node, ast.Return))]
+    res.floor(rule, "exits of accept_path", len(rets), 2)
+    depth_vars = {t.id for a in ast.walk(ap.node) if isinstance(a, ast.Assign) and norm(a.value) == "len(self.path_stack)" for t in a.targets if isinstance(t, ast.Name)}
+    for r in rets:
+        if r.id not in PIN:
+            continue
+        site = f"{rel}:{r.line} Lexer.accept_path"
+        what = f"exit at line {r.line}: the path token's stop is current"
+        if ptr(r, PIN[r.id], "next") == "fresh":
+            res.ok(rule, site, what, "`self.path_stack[-1].stop = …` follows every segment append on all paths")
+        else:
+            res.fail(rule, file=rel, line=r.line, qualname="Lexer.accept_path", construct=f"return at a point where a segment was appended without updating stop", message="accept_path can return after appending a segment (or pushing a nested path) without bringing `self.path_stack[-1].stop` up to date: the token keeps its placeholder end (-1) or an end before its last segment, so its span is not the text it was scanned from", what=what)
+        what_b = f"exit at line {r.line}: guarded by a bracket-balance test"
+
+        def balance(t: ast.AST) -> bool | None:
+            txt = norm(t)
+            for dv in depth_vars:
+                if txt in (f"len(self.path_stack) != {dv}", f"len(self.path_stack) > {dv}"):
+                    return True  # bad (unbalanced) on the true edge
+                if txt == f"len(self.path_stack) == {dv}":
+                    return False
+            return None
+
+        g = guarded_by_test(acfg, r, balance)
+        if g is not None:
+            res.ok(rule, site, what_b, f"dominated by `{norm(g.node)}`")
+        else:
+            res.fail(rule, file=rel, line=r.line, qualname="Lexer.accept_path", construct="return without a bracket-balance test", message="accept_path can return while a nested (bracketed) path is still open: the caller pops the nested token, the outer path stays on the stack and leaks into the next markup (`{{ a[b }}` is accepted)", what=what_b)
+    # nested path: stop taken before the closing bracket is skipped
+    AIN = lm.ts.solve(acfg, S)
+    n_nested = 0
+    popped = {t.id for a in ast.walk(ap.node) if isinstance(a, ast.Assign) and norm(a.value) == "self.path_stack.pop()" for t in a.targets if isinstance(t, ast.Name)}
+    for n in acfg.nodes:
+        if n.kind == "stmt" and isinstance(n.node, ast.Assign) and any(isinstance(t, ast.Attribute) and t.attr == "stop" and isinstance(t.value, ast.Name) and t.value.id in popped for t in n.node.targets):
+            n_nested += 1
+            st = AIN.get(n.id)
+            what = f"`{norm(n.node)}`: the closed nested path ends before its closing bracket"
+            if _is_self_attr(n.node.value, "start") and st != S:
+                res.ok(rule, f"{rel}:{n.line} Lexer.accept_path", what, f"start not yet moved past the bracket (state {st})")
+            else:
+                res.fail(rule, file=rel, line=n.line, qualname="Lexer.accept_path", construct=f"{norm(n.node)} after the resync", message=f"`{norm(n.node)}` runs after the closing bracket was skipped (scan pointers synced): the nested variable's span includes the `]` of the enclosing path", what=what)
+    res.floor(rule, "nested path stop assignments", n_nested, 1)
+
